@@ -22,6 +22,7 @@ theorem inv_step (s s' : St) (a : Act) (h : Inv s) (hs : step s a = some s') : I
     | idle => exact p_pidle _ _ _ _ _ _ h hs
     | pBlk v => exact p_pBlk _ _ _ _ _ _ _ h hs
     | pIdx v tb => exact p_pIdx _ _ _ _ _ _ _ _ h hs
+    | pWr v tb pi => exact p_pWr _ _ _ _ _ _ _ _ _ h hs
     | aFirst l => exact p_aFirst _ _ _ _ _ _ _ h hs
     | aLast l f => exact p_aLast _ _ _ _ _ _ _ _ h hs
     | aNext l f => exact p_aNext _ _ _ _ _ _ _ _ h hs
@@ -41,17 +42,20 @@ theorem inv_step (s s' : St) (a : Act) (h : Inv s) (hs : step s a = some s') : I
     | oIdx => exact c_oIdx _ _ _ _ _ _ h hs
     | oTail hi => exact c_oTail _ _ _ _ _ _ _ h hs
     | oBlk hi => exact c_oBlk _ _ _ _ _ _ _ h hs
+    | oRd hb hi => exact c_oRd _ _ _ _ _ _ _ _ h hs
     | oNext hb hi v => exact c_oNext _ _ _ _ _ _ _ _ _ h hs
     | oSetBlk nh hi v => exact c_oSetBlk _ _ _ _ _ _ _ _ _ h hs
     | oStore hi v => exact c_oStore _ _ _ _ _ _ _ _ h hs
     | kIdx => exact c_kIdx _ _ _ _ _ _ h hs
     | kTail hi => exact c_kTail _ _ _ _ _ _ _ h hs
     | kBlk hi => exact c_kBlk _ _ _ _ _ _ _ h hs
+    | kRd hb hi => exact c_kRd _ _ _ _ _ _ _ _ h hs
     | lHead b => exact c_lHead _ _ _ _ _ _ _ h hs
     | lTail b hi => exact c_lTail _ _ _ _ _ _ _ _ h hs
     | bIdx d => exact c_bIdx _ _ _ _ _ _ _ h hs
     | bTail d hi => exact c_bTail _ _ _ _ _ _ _ _ h hs
     | bBlk d hi ce => exact c_bBlk _ _ _ _ _ _ _ _ _ h hs
+    | bRd d hb ci ce acc => exact c_bRd _ _ _ _ _ _ _ _ _ _ _ h hs
     | bNext d hb ce vals => exact c_bNext _ _ _ _ _ _ _ _ _ _ h hs
     | bSetBlk d nh ce vals => exact c_bSetBlk _ _ _ _ _ _ _ _ _ _ h hs
     | bStore d ce vals => exact c_bStore _ _ _ _ _ _ _ _ _ h hs
@@ -138,5 +142,67 @@ theorem reach_live_chain (B : Nat) (hB : 0 < B) (l : List Act) (b : Nat) :
     exact ⟨_, this.1, this.2.1, this.2.2⟩
   · rintro ⟨k, h1, h2, rfl⟩
     exact h.ch_live k h1 h2
+
+/-! 5. slot accesses and recycling -/
+
+/-- the block a consumer slot-read pc reads from -/
+def readBlk : CPc → Option Bid | .oRd hb _ | .kRd hb _ | .bRd _ hb _ _ _ => some hb | _ => none
+/-- the block `alloc_node` is about to hand out again (recycle) -/
+def recycled : PPc → Option Bid | .aNext _ f | .aSetFirst _ f _ => some f | _ => none
+
+/-- a consumer at a slot-read pc is inside a pop / peek / bulk_pop of a queue in use (`ph = 1`) -/
+theorem read_ph (s : St) (h : Inv s) (hb : Bid) (hr : readBlk s.cp = some hb) : s.sh.ph = 1 := by
+  obtain ⟨sh, pp, cp, app, acp⟩ := s
+  have h0 := h.ph0; have h2 := h.wd; have h3 := h.ph3; have h4 := h.ph_le
+  cases cp <;> simp only [readBlk, reduceCtorEq] at hr <;> simp only [dwalk, reduceCtorEq] at h0 h2 h3 h4 <;> grind
+
+theorem read_before_release (s : St) (h : Inv s) :
+    (∀ hb, readBlk s.cp = some hb → hb = s.sh.headBlk ∧ s.sh.live hb = true) ∧
+    (∀ f, recycled s.pp = some f → f ≠ s.sh.headBlk) ∧
+    (∀ v tb pi, s.pp = .pWr v tb pi → tb = s.sh.tailBlk ∧ pi = s.sh.tailIdx) := by
+  refine ⟨?_, ?_, ?_⟩
+  · intro hb hr
+    have hph := read_ph s h hb hr
+    have hlive : s.sh.live s.sh.headBlk = true := by
+      rw [h.p_head]
+      have := h.fk_lk (by omega); have := h.lk_hk (by omega); have := h.hk_tk
+      have := h.te_def (by omega) (by omega)
+      exact h.ch_live _ (by omega) (by omega)
+    have hcl := h.cloc
+    obtain ⟨sh, pp, cp, app, acp⟩ := s
+    cases cp <;> simp only [readBlk, reduceCtorEq, Option.some.injEq] at hr <;> subst hr <;> simp only [CLoc] at hcl
+    all_goals exact ⟨hcl.1, by rw [hcl.1]; exact hlive⟩
+  · intro f hr
+    have hpl := h.ploc
+    have hal : s.sh.alive = true := h.pal (by intro hp; rw [hp] at hr; simp [recycled] at hr)
+    have hph := h.al1 hal
+    have h1 := h.lk_hk (by omega); have h2 := h.hk_tk; have h3 := h.fk_lk (by omega)
+    have h4 := h.te_def (by omega) (by omega)
+    have hfl : f = s.sh.first ∧ s.sh.fk < s.sh.lk := by
+      obtain ⟨sh, pp, cp, app, acp⟩ := s
+      cases pp <;> simp only [recycled, reduceCtorEq, Option.some.injEq] at hr <;> subst hr <;> simp only [PLoc] at hpl
+      · exact ⟨hpl.2.1, hpl.2.2⟩
+      · exact ⟨hpl.2.1, hpl.2.2.1⟩
+    intro heq
+    have n1 := h.ch_num s.sh.fk (Nat.le_refl _) (by omega)
+    have n2 := h.ch_num s.sh.hk (by omega) (by omega)
+    rw [← h.p_first (by omega), ← hfl.1, heq, h.p_head, n2] at n1
+    omega
+  · intro v tb pi hp
+    have hpl := h.ploc
+    rw [hp] at hpl
+    exact hpl
+
+/-- the consumer reads a slot only from the CURRENT head block (live; i.e. before the `head.block` store that releases
+    the block to the producer's cache); a block that `alloc_node` recycles is never the head block (it lies strictly
+    before it in the chain: `fk < lk ≤ hk`); the producer's slot write goes to the tail block at slot `tail.index`,
+    which is outside `[head, tail)` -/
+theorem reach_read_before_release (B : Nat) (hB : 0 < B) (l : List Act) :
+    (∀ hb, readBlk (run (init B) l).cp = some hb →
+        hb = (run (init B) l).sh.headBlk ∧ (run (init B) l).sh.live hb = true) ∧
+    (∀ f, recycled (run (init B) l).pp = some f → f ≠ (run (init B) l).sh.headBlk) ∧
+    (∀ v tb pi, (run (init B) l).pp = .pWr v tb pi →
+        tb = (run (init B) l).sh.tailBlk ∧ pi = (run (init B) l).sh.tailIdx) :=
+  read_before_release _ (inv_reach B hB l)
 
 end MayVerif.Spsc
